@@ -114,7 +114,16 @@ class SGen(object):
         r = self.r
         gens = []
         for _ in range(1 if r.random() < 0.75 else 2):
-            g = 'for %s in %s' % (self.comp_target(), self.expr(d + 1, True))
+            tgt = self.comp_target()
+            if r.random() < 0.3:
+                # the iterable mentions the clause's own target name: it is evaluated before the target is bound
+                # (the leftmost one in the enclosing scope)
+                t0 = tgt.split(',')[0].strip()
+                it = r.choice([t0, '%s.%s' % (t0, r.choice(ATTRS)), '%s[0]' % t0, '%s()' % t0, '%s + %s' % (t0, self.name()),
+                               '(%s, %s)' % (self.name(), t0)])
+            else:
+                it = self.expr(d + 1, True)
+            g = 'for %s in %s' % (tgt, it)
             if r.random() < 0.4:
                 g += ' if %s' % self.expr(d + 1, True)
             gens.append(g)
@@ -382,10 +391,43 @@ class DGen(progs.Gen):
         pool = sorted(defined)
         return self.r.choice(pool) if pool else '0'
 
+    def shadow_comp(self, ind, defined, v):
+        """a comprehension whose iterable reads the name of the clause's own target (parameter / local, global,
+        closure variable; all four kinds; also in a nested clause)"""
+        r = self.r
+
+        def kind(elt, clauses):
+            c = r.randint(0, 3)
+            if c == 0:
+                return '[%s %s]' % (elt, clauses)
+            if c == 1:
+                return 'len({%s %s})' % (elt, clauses)
+            if c == 2:
+                return '{%s: 1 %s}' % (elt, clauses)
+            return 'sum(%s %s)' % (elt, clauses)
+        where = r.randint(0, 3)
+        d = self.rd(defined)
+        if where == 0 and d != '0':            # parameter / local of f
+            self.emit(ind, '%s = %s' % (v, kind('%s + 1' % d, 'for %s in (%s, 2)' % (d, d))))
+        elif where == 1:                       # global that the function only reads
+            self.emit(ind, '%s = %s' % (v, kind('GW + 1', 'for GW in GW')))
+        elif where == 2 and d != '0':          # closure variable, read by a nested def
+            nm = 'g%d' % self.key()
+            self.emit(ind, 'def %s(p):' % nm)
+            self.emit(ind + 1, 'return %s' % kind('%s + p' % d, 'for %s in (%s, p)' % (d, d)))
+            self.emit(ind, '%s = %s(%s)' % (v, nm, self.texpr(defined)))
+        elif d != '0':                         # nested clauses: the leftmost iterable reads its own target
+            self.emit(ind, '%s = %s' % (v, kind('q', 'for %s in ((%s, 1),) for q in %s' % (d, d, d))))
+        else:
+            self.emit(ind, '%s = %s' % (v, kind('GW', 'for GW in (GW,) for q in GW')))
+        return defined | {v}
+
     def extra(self, ind, defined):
         r = self.r
-        k = r.randint(0, 13)
+        k = r.randint(0, 16)
         v = r.choice(self.vars)
+        if k >= 14:
+            return self.shadow_comp(ind, defined, v)
         if k == 0:
             self.emit(ind, '%s = [q + %s for q in (1, 2) if q]' % (v, self.rd(defined)))
             return defined | {v}
